@@ -65,7 +65,9 @@ Check(ev) ==
     [] ev.ev = "ready_sample" /\ ev.k = "pre_listen" /\ ev.val = "true" -> "C17_NotReadyBeforeListening"
     [] ev.ev = "tlsup" /\ ev.val # "ok" /\ InTags(ev.c) /\ ~quiet[ev.c] -> "C13_HandshakeSeesFirstClientByte"   \* (a stopping server abandons the upgrade)
     [] ev.ev = "hend" /\ ev.val = "tls-err" /\ InTags(ev.c) /\ ~quiet[ev.c] -> "C13_HandshakeSeesFirstClientByte"
-    [] ev.ev = "plain_after_upgrade" -> "C13_EverythingIsTLSAfterUpgrade"
+    [] ev.ev = "plain_after_upgrade" /\ InTags(ev.c) /\ ~quiet[ev.c] -> "C13_EverythingIsTLSAfterUpgrade"    \* (a stopping server abandons the upgrade and says so in the clear)
+    [] ev.ev \in {"hstart", "recv"} /\ ev.i = 900 -> "C13_PlaintextBehindStartTLSNeverServed"      \* the frame the harness glued behind a StartTLS request
+    [] ev.ev = "hstart" /\ InTags(ev.c) /\ (\E j \in held[ev.c] : j # ev.i /\ <<j, "starttls">> \in kinds[ev.c]) -> "C13_NothingDispatchedWhileStartTLSHandlerRuns"
     [] ev.ev = "proc_exit" -> "C07_ProcessSurvives"
     [] ev.ev = "leak" /\ (ev.n > 0 \/ ev.m > 0) -> "C08_NothingLeaks"
     [] ev.ev = "garbage" -> "C05_StreamIsWholeMessages"
